@@ -73,4 +73,17 @@ Proof.
   intros Hn. cbn zeta. unfold send_missing_data. rewrite Hn. cbn. split; [eexists; split; reflexivity|reflexivity].
 Qed.
 
+(* a queued retransmission request [a, b) (not the marker, at most 65535 long) is answered with
+   exactly one file data PDU carrying the file's bytes of that range, and leaves the queue and the
+   first-pass cursor otherwise alone *)
+Theorem request_answered now a b t (s : sstate) : s_naks s = (a, b) :: t ->
+  (a =? 0) && (b - a =? 0) = false -> (65535 <? b - a) = false ->
+  let s' := fst (send_missing_data resp_len req_len now s) in
+  (exists p, s_out s' = OPdu p :: s_out s /\ o_payload p = PFileData a (slice (s_file s) a (b - a))) /\
+  s_naks s' = t /\ s_pos s' = s_pos s.
+Proof.
+  intros Hn Hm Hl. cbn zeta. unfold send_missing_data. rewrite Hn, Hl, Hm. cbn.
+  splits; auto. eexists. split; reflexivity.
+Qed.
+
 End ClosingP.
